@@ -134,12 +134,12 @@ Section WithLimits.
     let p := ep_of w s in
     fold_left (absorb1 s rl) (fd_news (fd p) fd') (put_ep s (set_fd fd' p) w).
 
-  (** Connection.connectionLost(Failure(r)) called from outside the FileDescriptor layer *)
+  (** Connection.connectionLost(Failure(r)) called from outside the FileDescriptor layer (reactor, delayed call).
+      In the descriptor's own log this is an [ELost false]: [ELost true] is reserved for the close that completes
+      loseConnection's flush, as in C14; the reason the protocol sees is [r]. *)
   Definition lost (s : side) (r : reason) (w : world) : world :=
     let p := ep_of w s in
-    if has_sock p
-    then absorb s r (conn_lost (match r with RDone => true | _ => false end) (fd p)) w
-    else w.
+    if has_sock p then absorb s r (conn_lost false (fd p)) w else w.
 
   Definition app_step (s : side) (a : app) (w : world) : world :=
     let p := ep_of w s in
@@ -147,7 +147,8 @@ Section WithLimits.
     | AWrite d => absorb s RLost (write bs d (fd p)) w
     | AWriteSeq ds => absorb s RLost (write_seq bs ds (fd p)) w
     | ALose => absorb s RLost (lose (fd p)) w
-    | ALoseW => if has_sock p then absorb s RLost (losew (fd p)) w else w
+    | ALoseW =>      (* Connection.loseWriteConnection: nothing once the write side is shut down or the connection lost *)
+        if connected (fd p) && negb (wdisconnected (fd p)) then absorb s RLost (losew (fd p)) w else w
     | AAbort =>
         if disconnected (fd p) || aborting p then w
         else put_ep s (set_abort_pending true (set_aborting true
@@ -200,7 +201,9 @@ Section WithLimits.
 
   Definition tick_step (s : side) (w : world) : world :=
     let p := ep_of w s in
-    if abort_pending p then lost s RAborted (put_ep s (set_abort_pending false p) w) else w.
+    if abort_pending p then
+      let w1 := lost s RAborted w in put_ep s (set_abort_pending false (ep_of w1 s)) w1
+    else w.
 
   Definition wstep (w : world) (e : event) : world :=
     match e with
@@ -219,7 +222,6 @@ Section WithLimits.
 
   Definition enabled (w : world) (e : event) : bool :=
     match e with
-    | App s ALoseW => has_sock (ep_of w s)       (* application hypothesis: no half-close after connectionLost *)
     | App _ _ => true
     | Rd s r =>
         let p := ep_of w s in
@@ -236,7 +238,7 @@ Section WithLimits.
         has_sock p && writing (fd p) &&
         match r with
         | SOk k => Nat.leb (N.to_nat k) (length (offered_now (fd p))) && Nat.leb (N.to_nat k) sl
-        | SErr => rst_of w s || wdisconnected (fd p)
+        | SErr => rst_of w s
         end
     | Hup s =>
         let p := ep_of w s in
